@@ -123,6 +123,23 @@ func (e *env) appendHs(hs ...uint64) error {
 	return err
 }
 
+// nextAbove returns the k heights right above the observed Head (after a Sync); false if the store
+// is empty or the chain is exhausted.
+func (e *env) nextAbove(k int) ([]uint64, bool) {
+	if err := e.sync(); err != nil {
+		return nil, false
+	}
+	head, err := e.st.Head(context.Background())
+	if err != nil {
+		return nil, false
+	}
+	var hs []uint64
+	for h := head.Height() + 1; h+4 <= e.chain.Len() && len(hs) < k; h++ { // keep room for continuations
+		hs = append(hs, h)
+	}
+	return hs, len(hs) > 0
+}
+
 func (e *env) headTail() (head, tail *vh.Header, herr, terr error) {
 	ctx := context.Background()
 	head, herr = e.st.Head(ctx)
